@@ -3,12 +3,16 @@
 spec/Wire.tla         layout tables (NTP, CSPTP message / request TLV / response TLV), LVM accessors,
                       NTS extension fields, server cookies, NTS-KE record encoding
 spec/NtsKeStream.tla  ntske.ReadData reading through bufio from a transport that segments the stream
+spec/WireHist.tla     histories of 2..3 codec calls in one process (one or two goroutines) over an allocator that
+                      may or may not hand out fresh storage: the results of earlier calls stay valid
+                      (Wire.tla property section (f): HistRoundTrip at the end of the history, ResultsStable)
 
 1. TLC decides the property section on both modules (exhaustive, small scope; switches PlaceholderTypedAsCookie /
    ShortCookieRead = FALSE = the code).  Spec self-test: with the old switches (the code before fixes 69cd14a /
-   b190383, *_faithful.cfg) TLC must find the violation - never a verdict about the code.
+   b190383, *_faithful.cfg) TLC must find the violation - never a verdict about the code.  Likewise the histories
+   with a recycling allocator (WireHist_recycle_*.cfg) must violate HistRoundTrip and ResultsStable.
 2. TLC enumerates the cases (field x value class / sweep, packet shapes, cookie shapes, first bytes) and the
-   behaviours (message x segmentation) that harness/c14 replays on the real codecs.
+   behaviours (message x segmentation; plan of calls x schedule) that harness/c14 replays on the real codecs.
 3. WireTrace.tla / NtsKeStreamTrace.tla validate what the real code did: monitor = property section
    (VIOLATION), strict = record explained by the specification under one of the switch settings (DRIFT).
 """
@@ -20,6 +24,8 @@ import vlib
 WIRE_MON = ["RLayRoundTrip", "RLayReencode", "RLaybReencode", "RLaypRoundTrip", "RLvmAgree", "RLvmSetGet", "RNtsKinds",
             "RNtsValues", "RNtsAuth", "RNtsAligned", "RSck", "RCrypt"]
 WIRE_STRICT = ["SLayBytes", "SLayFull", "SLayb", "SLayp", "SLvm", "SNtsEnc", "SNtsDec", "SSck"]
+HIST_MON = ["RHistRoundTrip", "RResultsStable"]
+HIST_STRICT = ["SHistSched", "SHistValues"]
 KE_MON = ["RSegmentationIndependent", "RKeRoundTrip"]
 KE_STRICT = ["SStream", "SNoExtraFetch", "SResult"]
 
@@ -84,11 +90,51 @@ def wire_class(r):
         return "layb %s" % r["m"]
     if k == "layp":
         return "layp %s reused-destination %s" % (r["m"], "+".join(r.get("diff") or ["?"])[:80])
+    if k == "hist":
+        x = hist_bad_call(r) or r["calls"][0]
+        return "hist result of %s.%s %s" % (x["cd"], x["op"], "changed after its call returned" if x["end"] != x["ret"] else "invalid")
     if k == "nts":
         i = r["in"]
         return "nts %s cookies=%s placeholders=%s" % ("api" if r["src"].startswith("api") else "fields",
                                                       "0" if not i["ck"] else ">0", "0" if not i["ph"] else ">0")
     return k
+
+
+def hist_bad_call(r):
+    """display only: the first call of a history whose result looks wrong"""
+    for x in r["calls"]:
+        if x["err"] != "nil" or x["rterr"] != "nil" or x["end"] != x["ret"]:
+            return x
+    return None
+
+
+def hist_plan(r):
+    return " ; ".join("%d: thread %d %s.%s%s" % (i + 1, x["th"], x["cd"], x["op"], " of result %d" % x["src"] if x["src"] else "")
+                      for i, x in enumerate(r["calls"]))
+
+
+HCODECS = ["ntp", "csptp", "reqtlv", "resptlv", "nts", "sck", "eck", "crypt", "ke"]
+
+
+def hist_stats(hs):
+    """what a set of histories (generated plans or replayed records) exercises - the new dimension, counted"""
+    st = dict(histories=len(hs), three_calls=0, same_codec_twice=0, mixed_codecs=0, two_goroutines=0, overlapping=0,
+              decode_of_earlier_result=0, encode_then_later_encode_same_codec=0, decode_then_later_decode_same_codec=0)
+    cds = set()
+    for h in hs:
+        calls, sched = h["calls"], h["sched"]
+        cds |= {x["cd"] for x in calls}
+        sites = [(x["cd"], x["op"]) for x in calls]
+        st["three_calls"] += len(calls) >= 3
+        st["same_codec_twice"] += len({x["cd"] for x in calls}) < len(calls)
+        st["mixed_codecs"] += len({x["cd"] for x in calls}) > 1
+        st["two_goroutines"] += len({x["th"] for x in calls}) > 1
+        st["overlapping"] += any(sched[j]["e"] == "B" and sched[j - 1]["e"] == "B" for j in range(1, len(sched)))
+        st["decode_of_earlier_result"] += any(x["src"] for x in calls)
+        st["encode_then_later_encode_same_codec"] += any(s[1] == "enc" and sites.count(s) > 1 for s in sites)
+        st["decode_then_later_decode_same_codec"] += any(s[1] == "dec" and sites.count(s) > 1 for s in sites)
+    st["codecs"] = sorted(cds, key=lambda c: HCODECS.index(c) if c in HCODECS else 99)
+    return st
 
 
 def ke_class(r):
@@ -106,6 +152,9 @@ def replay_of(r):
                     pt=[len(c) for c in i["pt"]])
     if r["k"] == "lay":
         return {k: r[k] for k in ("k", "m", "ssds", "base", "f", "w", "off", "mode", "pre", "vs")}
+    if r["k"] == "hist":
+        return dict(kind="hist", mode=r["mode"], sched=r["sched"],
+                    calls=[{k: x[k] for k in ("th", "op", "cd", "src", "v")} for x in r["calls"]])
     return r
 
 
@@ -155,6 +204,8 @@ def monitor_all(ctx, pool, module, spec, consts, invs, recs, trace_name, classif
 
 # choice of the displayed counterexample only (never the verdict)
 LOOKS_LIKE = {
+    "RResultsStable": lambda r: r.get("k") == "hist" and any(x["end"] != x["ret"] for x in r["calls"]),
+    "RHistRoundTrip": lambda r: r.get("k") == "hist" and hist_bad_call(r) is not None,
     "RSegmentationIndependent": lambda r: r["data"] != r["data0"] or r["err"] != r["err0"],
     "RNtsKinds": lambda r: r.get("k") == "nts" and r["encerr"] == "nil" and (len(r["dec"]["ck"]) != len(r["in"]["ck"]) or len(r["dec"]["ph"]) != len(r["in"]["ph"])),
 }
@@ -177,12 +228,23 @@ def strict_all(ctx, pool, module, spec, consts, invs, recs, trace_name, limit, t
     return None
 
 
+def both_all(ctx, pool, module, spec, consts, mon, strict, recs, trace_name, classify, limit, timeout):
+    """Monitor and strict invariants of independent records.  One run with all of them first: when every record passes
+    (the usual case) both questions are answered.  Otherwise they are asked apart, as before: the monitor invariants
+    decide (every violated one reported), the strict ones only report drift.
+    Returns (#records through a complete monitor run, violations, first strict failure or None)."""
+    if strict_all(ctx, pool, module, spec, consts, mon + strict, recs, trace_name, limit, timeout) is None:
+        return len(recs), {}, None
+    n, found = monitor_all(ctx, pool, module, spec, consts, mon, recs, trace_name, classify, limit, timeout)
+    return n, found, strict_all(ctx, pool, module, spec, consts, strict, recs, trace_name, limit, timeout)
+
+
 # --------------------------------------------------------------------------- the check
 def run(ctx):
     q = ctx.quick
     ctx.specdir()
     top = ThreadPoolExecutor(max_workers=12)      # independent TLC runs / the two drivers, side by side
-    lanes = ThreadPoolExecutor(max_workers=4)     # trace validation: pieces of a trace in private directories
+    lanes = ThreadPoolExecutor(max_workers=6)     # trace validation: pieces of a trace in private directories
     try:
         return _run(ctx, q, top, lanes)
     finally:
@@ -195,68 +257,90 @@ def _run(ctx, q, pool, lanes):
     f_wgen = pool.submit(ctx.tlc, "WireMC", "Wire_gen.cfg" if q else "Wire_gendeep.cfg", workers=1, timeout=900, tag="gen")
     kgens = ["NtsKeStream_gen.cfg"] if q else ["NtsKeStream_gendeep.cfg", "NtsKeStream_gendeep4.cfg", "NtsKeStream_genwide.cfg"]
     f_kgens = [pool.submit(ctx.tlc, "NtsKeStreamMC", g, workers=1, timeout=900, tag="gen") for g in kgens]
+    # histories: 2 calls of any two codecs on one or two goroutines; 3 calls over a group of three codecs (quick: the
+    # group of the seed, one goroutine; thorough: every group, two goroutines)
+    hgens = ["WireHist_gen.cfg", "WireHist_gen3%s.cfg" % "abc"[ctx.seed % 3]] if q else \
+            ["WireHist_gen.cfg", "WireHist_gendeep3a.cfg", "WireHist_gendeep3b.cfg", "WireHist_gendeep3c.cfg"]
+    f_hgens = [pool.submit(ctx.tlc, "WireHistMC", g, workers=1, timeout=900, tag="gen") for g in hgens]
     f_exh = [(pool.submit(ctx.tlc, "WireMC", "Wire_exh.cfg" if q else "Wire_deep.cfg", workers=3 if q else 6, timeout=1500), "Wire")]
     for g in (["NtsKeStream_exh.cfg"] if q else ["NtsKeStream_deep.cfg", "NtsKeStream_wide.cfg"]):
         f_exh.append((pool.submit(ctx.tlc, "NtsKeStreamMC", g, workers=2 if q else 4, timeout=1500), "NtsKeStream"))
+    for g in (["WireHist_exh.cfg", "WireHist_exh3.cfg"] if q else ["WireHist_exh.cfg", "WireHist_deep.cfg"]):
+        f_exh.append((pool.submit(ctx.tlc, "WireHistMC", g, workers=2 if q else 4, timeout=1500), "WireHist"))
     wcases = ctx.emitted(f_wgen.result()["out"])
     kcases = []
     for f in f_kgens:
         kcases += ctx.emitted(f.result()["out"])
-    if len(wcases) < 1000 or len(kcases) < 3000:
-        raise vlib.Inconclusive("case generators produced only %d wire cases / %d stream behaviours" % (len(wcases), len(kcases)))
-    ctx.log("TLC generated %d codec cases and %d (message, segmentation) behaviours" % (len(wcases), len(kcases)))
+    hcases, seen = [], set()
+    for f in f_hgens:
+        for h in ctx.emitted(f.result()["out"]):
+            key = json.dumps(h, sort_keys=True)
+            if key not in seen:
+                seen.add(key)
+                hcases.append(h)
+    if len(wcases) < 1000 or len(kcases) < 3000 or len(hcases) < 1000:
+        raise vlib.Inconclusive("case generators produced only %d wire cases / %d stream behaviours / %d histories" %
+                                (len(wcases), len(kcases), len(hcases)))
+    # vacuity guards on the specification side: what the generated histories exercise
+    hstat = hist_stats(hcases)
+    for k in ("same_codec_twice", "mixed_codecs", "two_goroutines", "overlapping", "three_calls", "decode_of_earlier_result",
+              "encode_then_later_encode_same_codec"):
+        if not hstat[k]:
+            raise vlib.Inconclusive("generated histories exercise no %s" % k)
+    if hstat["codecs"] != HCODECS:
+        raise vlib.Inconclusive("generated histories cover only the codecs %s" % hstat["codecs"])
+    ctx.log("TLC generated %d codec cases, %d (message, segmentation) behaviours and %d histories of calls %s" %
+            (len(wcases), len(kcases), len(hcases), hstat))
     # the variants with the old switches (the code before the two fixes): spec self-test, see below
     f_wfa = pool.submit(ctx.tlc, "WireMC", "Wire_faithful.cfg", workers=2, timeout=600, allow_violation=True, tag="selftest-old-switches")
     f_kfa = pool.submit(ctx.tlc, "NtsKeStreamMC", "NtsKeStream_faithful.cfg", workers=2, timeout=600, allow_violation=True,
                         tag="selftest-old-switches")
+    # histories over a recycling allocator: both clauses of (f) must reject them
+    f_hrec = [(pool.submit(ctx.tlc, "WireHistMC", "WireHist_recycle_%s.cfg" % x, workers=2, timeout=600, allow_violation=True,
+                           tag="selftest-recycling-allocator"), inv) for x, inv in (("rt", "PHistRoundTrip"), ("st", "PResultsStable"))]
 
     # 3. the real codecs
-    wp, kp = ctx.path("wcases.ndjson"), ctx.path("kcases.ndjson")
+    wp, kp, hp = ctx.path("wcases.ndjson"), ctx.path("kcases.ndjson"), ctx.path("hcases.ndjson")
     vlib.write_ndjson(wp, wcases)
     vlib.write_ndjson(kp, kcases)
+    vlib.write_ndjson(hp, hcases)
     f_wdrv = pool.submit(ctx.godriver, "c14", "TestC14Wire$", out_name="wire_rec.ndjson", cases=wp, timeout=900)
     wtrace, wout = f_wdrv.result()
     f_kdrv = pool.submit(ctx.godriver, "c14", "TestC14Ke$", out_name="ke_rec.ndjson", cases=kp, timeout=900)
+    f_hdrv = pool.submit(ctx.godriver, "c14", "TestC14Hist$", out_name="hist_rec.ndjson", cases=hp, timeout=900)
     ktrace, kout = f_kdrv.result()
+    htrace, hout = f_hdrv.result()
     wrecs = vlib.read_ndjson(wtrace)
     krecs = vlib.read_ndjson(ktrace)
+    hrecs = vlib.read_ndjson(htrace)
     kinds = {}
     for r in wrecs:
         kinds[r["k"]] = kinds.get(r["k"], 0) + 1
     modes = {}
     for r in krecs:
         modes[r["mode"]] = modes.get(r["mode"], 0) + 1
-    ctx.log("driver: %d codec records %s, %d stream reads %s" % (len(wrecs), kinds, len(krecs), modes))
+    hmodes = {}
+    for r in hrecs:
+        hmodes[r["mode"]] = hmodes.get(r["mode"], 0) + 1
+    ctx.log("driver: %d codec records %s, %d stream reads %s, %d histories %s" % (len(wrecs), kinds, len(krecs), modes, len(hrecs), hmodes))
     for k in ("lay", "layb", "layp", "lvm", "nts", "sck", "eck", "crypt"):
         if not kinds.get(k):
             raise vlib.Inconclusive("driver produced no %s record" % k)
     if not modes.get("mem") or not modes.get("tls"):
         raise vlib.Inconclusive("driver produced no in-memory / no TLS stream read")
+    if len(hrecs) < len(hcases) or not hmodes.get("inline") or not hmodes.get("goroutines"):
+        raise vlib.Inconclusive("driver replayed %d of %d histories %s" % (len(hrecs), len(hcases), hmodes))
     nvals = sum(len(r["fl"]) for r in wrecs if r["k"] == "lay")
     if nvals == 0 or any(not all(x & 1 for x in r["fl"]) for r in wrecs if r["k"] == "lay"):
         raise vlib.Inconclusive("layout records without claimed values")
-
-    for f, what in f_exh:
-        r = f.result()
-        ctx.log("TLC exhaustive %s (%s): %d distinct states, property section holds" %
-                (what, r["cfg"], r["distinct"]))
-    # spec self-test: the variants with the old switches must be rejected by the property section
-    for f, what, sw in ((f_wfa, "Wire", "PlaceholderTypedAsCookie"), (f_kfa, "NtsKeStream", "ShortCookieRead")):
-        r = f.result()
-        if not r["violated"]:
-            raise vlib.Inconclusive("spec self-test: %s with %s=TRUE satisfies the property section (the property section or "
-                                    "the bounds of %s have lost their teeth)" % (what, sw, r["cfg"]))
-        ctx.notes.append("spec self-test: %s with %s=TRUE (the code before the fix) violates %s, as it must" % (what, sw, r["violated"]))
-        ctx.log(ctx.notes[-1])
 
     # 4. code -> spec
     limit = 6_000_000 if q else 16_000_000      # bytes of ndjson per TLC run
     tmo = 900
     outer = pool
-    f_wm = outer.submit(monitor_all, ctx, lanes, "WireTrace", "TSpec", [], WIRE_MON, wrecs, "wire_trace.ndjson", wire_class, limit, tmo)
+    f_wb = outer.submit(both_all, ctx, lanes, "WireTrace", "TSpec", [], WIRE_MON, WIRE_STRICT, wrecs, "wire_trace.ndjson", wire_class, limit, tmo)
     f_km = outer.submit(monitor_all, ctx, lanes, "NtsKeStreamTrace", "MonSpec", ["ShortCookieRead = FALSE"], KE_MON, krecs,
                         "ke_trace.ndjson", ke_class, limit, tmo)
-    f_ws = outer.submit(strict_all, ctx, lanes, "WireTrace", "TSpec", [], WIRE_STRICT, wrecs, "wire_trace.ndjson", limit, tmo)
     # strict, stream reader: the variant a glance at the records suggests is tried first (order only; the
     # other one is tried when it does not explain every read)
     first = any(r["data"] != r["data0"] or r["err"] != r["err0"] for r in krecs)
@@ -269,10 +353,43 @@ def _run(ctx, q, pool, lanes):
             if ks[sw] is None:
                 break
     f_ks = outer.submit(ke_strict)
-    nw, wfound = f_wm.result()
+    f_hb = outer.submit(both_all, ctx, lanes, "WireTrace", "TSpec", [], HIST_MON, HIST_STRICT, hrecs, "wire_trace.ndjson", wire_class, limit, tmo)
+    # (the exhaustive runs and the self-tests went on beside the drivers and the validation)
+    for f, what in f_exh:
+        r = f.result()
+        ctx.log("TLC exhaustive %s (%s): %d distinct states, property section holds" %
+                (what, r["cfg"], r["distinct"]))
+    # spec self-test: the variants with the old switches must be rejected by the property section
+    for f, what, sw in ((f_wfa, "Wire", "PlaceholderTypedAsCookie"), (f_kfa, "NtsKeStream", "ShortCookieRead")):
+        r = f.result()
+        if not r["violated"]:
+            raise vlib.Inconclusive("spec self-test: %s with %s=TRUE satisfies the property section (the property section or "
+                                    "the bounds of %s have lost their teeth)" % (what, sw, r["cfg"]))
+        ctx.notes.append("spec self-test: %s with %s=TRUE (the code before the fix) violates %s, as it must" % (what, sw, r["violated"]))
+        ctx.log(ctx.notes[-1])
+    for f, inv in f_hrec:
+        r = f.result()
+        if r["violated"] != inv:
+            raise vlib.Inconclusive("spec self-test: histories over a recycling allocator (%s) do not violate %s (got %r): clause (f) "
+                                    "of the property section or the bounds have lost their teeth" % (r["cfg"], inv, r["violated"]))
+        ctx.notes.append("spec self-test: WireHist with Recycle=TRUE (an allocator that hands out storage the caller still holds) "
+                         "violates %s, as it must" % inv)
+        ctx.log(ctx.notes[-1])
+
+    nw, wfound, d = f_wb.result()
     nk, kfound = f_km.result()
+    nh, hfound, dh = f_hb.result()
     f_ks.result()
-    d = f_ws.result()
+    for (inv, cls), bad in sorted(hfound.items()):
+        x = hist_bad_call(bad) or bad["calls"][0]
+        n = sum(1 for r in hrecs if hist_bad_call(r) is not None)
+        ctx.violation("C14 %s %s" % (inv, cls),
+                      "real codecs violate %s in a history of calls [%d of %d replayed histories hold a result that is invalid or "
+                      "has changed at the end of the history; this one (%s): %s -- call %d returned %s, at the end of the history "
+                      "the caller finds %s%s]: %s" %
+                      (inv, n, len(hrecs), bad["mode"], hist_plan(bad), bad["calls"].index(x) + 1, short(x["ret"], 300),
+                       short(x["end"], 300), "" if x["err"] == "nil" and x["rterr"] == "nil" else " (error: %s / %s)" % (x["err"], x["rterr"]),
+                       short(bad, 600)), replay_of(bad))
     for (inv, cls), bad in sorted(wfound.items()):
         extra = ""
         if bad["k"] == "nts" and inv == "RNtsKinds":
@@ -293,6 +410,8 @@ def _run(ctx, q, pool, lanes):
     variant = {}
     if d:
         ctx.drift.append("codec record differs from Wire.tla (%s): %s" % (d[0], short(d[1], 400)))
+    if dh:
+        ctx.drift.append("history of calls differs from WireHist.tla / Wire.tla (%s): %s" % (dh[0], short(dh[1], 400)))
     def ph_type(r):      # type tag of the first placeholder field on the wire (information for the evidence file)
         o = 4 + pad4(len(r["in"]["uid"])) + sum(4 + pad4(len(c)) for c in r["in"]["ck"])
         return r["enc"][o] * 256 + r["enc"][o + 1]
@@ -310,7 +429,7 @@ def _run(ctx, q, pool, lanes):
     ctx.log(ctx.notes[-1])
 
     if os.environ.get("VERIF_C14_SELFTEST"):
-        selftest(ctx, wrecs, krecs)
+        selftest(ctx, wrecs, krecs, hrecs)
 
     # observations outside the claim (reported, never judged)
     unal = [r for r in wrecs if r["k"] == "nts" and r["encerr"] == "nil" and
@@ -330,6 +449,8 @@ def _run(ctx, q, pool, lanes):
     ]
 
     def key(r):
+        if r.get("k") == "hist":
+            return json.dumps(["hist", r["mode"], r["rep"], r["sched"], [[x[k] for k in ("th", "op", "cd", "src", "v")] for x in r["calls"]]])
         if "k" in r:
             return json.dumps([r.get(x) for x in ("k", "m", "ssds", "base", "f", "mode", "pre", "vs", "b", "x", "in", "keyid", "src", "prev", "vals")],
                               sort_keys=True)
@@ -342,15 +463,25 @@ def _run(ctx, q, pool, lanes):
             for i in range(len(r["fl"])):
                 v = tuple(r["vs"][i]) if r["mode"] == "classes" else tuple(r["pre"]) + (i,)
                 layvals.add((r["m"], r["f"], r["ssds"], r["base"] if r["base"] != "rand" else json.dumps(r["vals0"], sort_keys=True), v))
-    distinct = len(layvals) + len({key(r) for r in wrecs if r["k"] != "lay"}) + len({key(r) for r in krecs})
+    distinct = len(layvals) + len({key(r) for r in wrecs if r["k"] != "lay"}) + len({key(r) for r in krecs}) + len({key(r) for r in hrecs})
+    hrstat = hist_stats(hrecs)
+    ncalls = sum(len(r["calls"]) for r in hrecs)
+    ctx.notes.append("histories of calls (results of earlier calls stay valid): TLC generated %d histories (plan x schedule) - %s; "
+                     "the driver replayed %d (%d calls: every result copied at return and at the end of the history, %d of them "
+                     "on two goroutines, %d with calls running at the same time), all judged by RHistRoundTrip (end-of-history "
+                     "values) and RResultsStable (end = at return)" %
+                     (len(hcases), ", ".join("%s=%s" % (k, v) for k, v in hstat.items()), len(hrecs), ncalls,
+                      hrstat["two_goroutines"], hrstat["overlapping"]))
+    ctx.log(ctx.notes[-1])
     small = [r for r in wrecs if r["k"] in ("lvm", "sck") and rec_weight(r) < 1500][:2] + \
             [r for r in wrecs if r["k"] == "nts" and rec_weight(r) < 2500][:1] + \
             [dict(r, vs=r["vs"][:4], eb=r["eb"][:4], db=r["db"][:4], fl=r["fl"][:4], declen=r["declen"][:4], note="first 4 values shown")
              for r in wrecs if r["k"] == "lay" and r["mode"] == "classes"][:1] + \
             [r for r in krecs if r["mode"] == "mem" and len(r["cuts"]) > 1 and rec_weight(r) < 1500][:2] + \
-            [r for r in krecs if r["mode"] == "tls" and rec_weight(r) < 1500][:1]
+            [r for r in krecs if r["mode"] == "tls" and rec_weight(r) < 1500][:1] + \
+            [r for r in hrecs if r["mode"] == "goroutines" and all(x["cd"] in ("sck", "ke") for x in r["calls"]) and rec_weight(r) < 2500][:1]
     ctx.cov.update(
-        evaluations=len(wrecs) + len(krecs) + nvals, distinct_nontrivial=distinct,
+        evaluations=len(wrecs) + len(krecs) + nvals + ncalls, distinct_nontrivial=distinct,
         rule="codec records: TLC-enumerated (message type, field, base pattern) x value list (all 256 values of every 8-bit "
              "field; 16-bit fields swept over all low bytes for the high bytes of the tier (all 256 in thorough); "
              "{0, max, sign boundaries, 2^k, 2^k+-1} for every width) + masked byte patterns decoded and re-encoded + "
@@ -359,10 +490,16 @@ def _run(ctx, q, pool, lanes):
              "cookie lengths, NewRequestPacket / NewResponsePacket) with seeded contents + cookie shapes; stream reads: every "
              "TLC behaviour (message of <= MaxRecs records + end of message, every segmentation into <= MaxChunks reads) "
              "replayed through a chunking io.Reader, a subset over an in-memory TLS connection written in explicit "
-             "pieces, plus real-sized server messages (8 x 124-byte cookies) under seeded cuts. evaluations = records + "
-             "per-value observations inside layout records; distinct = distinct (kind, inputs) records",
-        traces_validated_against_impl=nw + nk, exhaustive=True, samples=small,
-        records=dict(codec=kinds, stream=modes, layout_values=nvals), spec_variant=variant)
+             "pieces, plus real-sized server messages (8 x 124-byte cookies) under seeded cuts; histories of calls: every "
+             "TLC behaviour of WireHist.tla (plan of 2 calls over all 9 codecs x {enc, dec} on one or two goroutines, plans of 3 "
+             "calls over groups of 3 codecs (quick: the group of the seed on one goroutine; thorough: all groups on two "
+             "goroutines), decodes of environment-written encodings and of results of earlier calls, "
+             "every schedule of Begin/End events up to the order inside a run of concurrent events) replayed on the real codecs "
+             "with seeded contents, the caller holding every result until the end. evaluations = records + "
+             "per-value observations inside layout records + calls inside histories; distinct = distinct (kind, inputs) records",
+        traces_validated_against_impl=nw + nk + nh, exhaustive=True, samples=small,
+        records=dict(codec=kinds, stream=modes, layout_values=nvals, histories=hmodes, history_calls=ncalls),
+        histories=dict(generated=hstat, replayed=hrstat), spec_variant=variant)
     ctx.assumptions += [
         "decoding into a reused destination is judged for the fixed-layout decoders (ntp.DecodePacket, csptp.DecodeMessage / "
         "DecodeRequestTLV / DecodeResponseTLV; the CSPTP client reuses its Message and ResponseTLV variables); nts.DecodePacket "
@@ -375,11 +512,16 @@ def _run(ctx, q, pool, lanes):
         "encrypted cookies recovered), not byte by byte",
         "transport chunks and cookie bodies are smaller than bufio's 4096-byte buffer",
         "small scope: <= 3 extension fields of each kind, streams of <= 3 (quick) / 4 (thorough) records cut into <= 3 / 4 reads",
+        "histories: 2..3 calls on <= 2 goroutines; the order of calls that run at the same time is not controlled (no hooks "
+        "inside the codecs): such histories are replayed as released together (thorough: those of two calls twice); buffers the codecs ask "
+        "the caller for (csptp.Encode*, the destination structs) are fresh per call - reuse by the caller is the caller's business "
+        "(reused decode destinations: see layp); an input is never written to after it was passed, so decoded values may share "
+        "memory with their input (ServerCookie.Decode does)",
     ]
 
 
 # --------------------------------------------------------------------------- negative control on the trace
-def selftest(ctx, wrecs, krecs):
+def selftest(ctx, wrecs, krecs, hrecs):
     """Corrupt one recorded field of an accepted record and require the monitor to reject it."""
     pool = ThreadPoolExecutor(max_workers=1)
 
@@ -411,6 +553,14 @@ def selftest(ctx, wrecs, krecs):
               not any(x["t"] == "ck" for x in r["recs"]), krecs)
     del r["cuts"][-1]
     tests.append(("NtsKeStreamTrace", "StrictSpec", ["ShortCookieRead = FALSE"], KE_STRICT, r, "ke_trace.ndjson", None))
+    # a history whose first result is not at the end what it was at return / whose decoded value is another value
+    r = first(lambda r: r["calls"][0]["op"] == "enc" and r["calls"][0]["cd"] == "sck", hrecs)
+    r["calls"][0]["end"][5] ^= 1
+    tests.append(("WireTrace", "TSpec", [], HIST_MON, r, "wire_trace.ndjson", "RResultsStable"))
+    r = first(lambda r: r["calls"][-1]["op"] == "dec" and r["calls"][-1]["cd"] == "eck" and r["calls"][-1]["val"]["x"], hrecs)
+    r["calls"][-1]["end"]["x"][0] ^= 1
+    r["calls"][-1]["ret"]["x"][0] ^= 1
+    tests.append(("WireTrace", "TSpec", [], HIST_MON, r, "wire_trace.ndjson", "RHistRoundTrip"))
     for module, spec, consts, invs, rec, tn, want in tests:
         lane = Lane(ctx)
         ok, l, inv, out = lane.validate(module, spec, consts, invs, [rec], tn, 300)
